@@ -43,7 +43,7 @@ func init() {
 	filterKeys = append(filterKeys, []byte("zz"), []byte{})
 	register(&Component{
 		Name:       "filter",
-		Rule:       "all programs of <= N ops (first op creates a filter) over 7 keys, 5 of which collide in one bucket, + random longer programs; non-trivial = at least one Extend and one later Add; distinct = distinct final contains-matrix",
+		Rule:       "all programs of <= N ops (first op creates a filter) over 7 keys, 5 of which collide in one bucket, + random longer programs + directed long lineages (70..1100 distinct keys added one by one / given to the constructor, then Extend and Adds on parent and child); non-trivial = at least one Extend and one later Add; distinct = distinct final contains-matrix",
 		Gen:        genFilter,
 		Impl:       implFilter,
 		Exhaustive: true,
@@ -140,6 +140,31 @@ func genFilter(tier string, rng *RNG, emit func(Case)) {
 		}
 		emit(Case{Op: "run", Args: []string{keysArg(bad), "n:" + keysArg(names)}})
 		emit(Case{Op: "run", Args: []string{keysArg(bad), "n:" + keysArg(names[:9]) + ";e:0:" + keysArg(names[9:])}})
+	}
+	// directed: LONG lineages (a filter that grows or re-buckets past some size must still be the plain set): several
+	// hundred distinct keys added one by one, a parent of > 512 keys extended, adds after the extension
+	{
+		big := func(n int, tag string) [][]byte {
+			var ks [][]byte
+			for i := 0; i < n; i++ {
+				ks = append(ks, []byte(tag+strconv.Itoa(i*7919%100003)))
+			}
+			return ks
+		}
+		for _, n := range []int{70, 130, 260, 520, 700, 1100} {
+			ks := big(n, "k")
+			absent := big(12, "q")
+			var prog []string
+			prog = append(prog, "n:_")
+			for _, k := range ks {
+				prog = append(prog, "a:0:"+hx(k))
+			}
+			emit(Case{Op: "run", Args: []string{keysArg(append(append([][]byte{}, ks...), absent...)), strings.Join(prog, ";")}})
+			// the same keys through the constructor, then Extend with fresh keys, then Adds on parent and child
+			more := big(9, "m")
+			prog2 := []string{"n:" + keysArg(ks), "e:0:" + keysArg(more[:3]), "a:1:" + hx(more[3]), "a:0:" + hx(more[4]), "e:1:" + keysArg(more[5:7]), "a:2:" + hx(more[7])}
+			emit(Case{Op: "run", Args: []string{keysArg(append(append(append([][]byte{}, ks...), more...), absent...)), strings.Join(prog2, ";")}})
+		}
 	}
 	for i := 0; i < nrand; i++ {
 		n := 2 + rng.Intn(maxLen-1)
